@@ -270,6 +270,15 @@ fn run_one<P: Property>(p: &P, case: &P::Case, open_known: &BTreeSet<String>, st
     }
 }
 
+/// Runs one case as the checks do (panic capture, known findings); Err((is_infra, failure)).
+pub fn run_case_public<P: Property>(p: &P, case: &P::Case, open_known: &BTreeSet<String>) -> Result<(), (bool, Failure)> {
+    match run_one(p, case, open_known, false) {
+        Outcome::Pass(_) => Ok(()),
+        Outcome::Fail(f) => Err((false, f)),
+        Outcome::Infra(m) => Err((true, Failure::new(m))),
+    }
+}
+
 fn case_hash<C: Serialize>(c: &C) -> (u64, u64) {
     let s = serde_json::to_string(c).unwrap();
     (str_hash(&s, 1), str_hash(&s, 2))
@@ -701,6 +710,14 @@ fn write_evidence<P: Property>(
         },
         "assumptions": p.assumptions(),
     });
+    let mut v = v;
+    if let Ok(f) = std::env::var("VERIF_FUZZ_STATS") {
+        if let Ok(txt) = std::fs::read_to_string(&f) {
+            if let Ok(fs) = serde_json::from_str::<Value>(&txt) {
+                v["coverage"]["fuzz_campaign"] = fs;
+            }
+        }
+    }
     let path = dir.join(format!("{}.json", p.id()));
     std::fs::write(&path, serde_json::to_string_pretty(&v).unwrap()).expect("write evidence");
 }
